@@ -100,6 +100,10 @@ def run_unit(unit, seed=0, both=False):
                 continue
             res['paths'] += 1
             res['covers'].extend(p.ctx.covers)
+            missing = [d for d in p.ctx.lemma_deps if not (_LIB or {}).get(d) or not _LIB[d].proved]
+            if missing:
+                res['unsupported'].append('path condition uses unproved lemma(s): ' + ', '.join(sorted(missing)))
+                continue
             groups = {}
             for ob in p.ctx.obligations:
                 groups.setdefault(len(ob.assumptions), []).append(ob)
